@@ -59,7 +59,7 @@ def replay(ctx, data):
 def run(ctx):
     ctx.rule = ("scripts that emphasise set iteration: templates with several parameters per argument and with "
                 "names that are substrings of each other, several measured registers per argument, include trees "
-                "acting on several modes in non-increasing first-use order; each is loaded and serialised in fresh "
+                "acting on several modes in non-increasing first-use order, five to nine registers in one argument, templates holding register transforms that are instantiated (directly and through an include called with values); each is loaded and serialised in fresh "
                 "interpreters with PYTHONHASHSEED = 0..7 (quick) / 0..31 (thorough); oracle: identical canonical "
                 "content, serialisation text, parameter set, mode set and register pairing values in every process "
                 "(only the listing order inside a register transform may differ); non-trivial = at least two "
@@ -82,6 +82,27 @@ def run(ctx):
             roots.append(root)
             cases.append({"files": real, "main": os.path.join(root, "main.xbb"), "root": root})
             meta.append(("include-with-clashing-parameter-names", True))
+            continue
+        if i % 8 == 3:
+            # five to nine registers in ONE argument, in a function that is not symmetric in them (small sets are
+            # copied slot for slot by CPython, larger ones are rehashed), alone or next to a template parameter
+            k = ctx.rng.randrange(5, 10)
+            regs = ctx.rng.sample(range(0, 14), k)
+            e = " ".join("%s %d*q%d" % ("-" if j % 2 else "+", j + 1, q) for j, q in enumerate(regs)).lstrip("+ ")
+            t = "name s\nversion 1.0\n\nDgate(%s, 0.5) | 5\nG(k=(q%d - q%d)*q%d%s) | 1\n" % (
+                e, regs[0], regs[1], regs[2], ctx.rng.choice(["", ", a={phi}"]))
+            cases.append({"text": t})
+            meta.append(("many-registers-in-one-argument", True))
+            continue
+        if i % 8 == 5:
+            # a template holding register transforms, included and called with values (the listener instantiates it)
+            a, b, c, d = ctx.rng.sample(range(0, 4), 4)
+            files = {"feed.xbb": "name Feed\nversion 1.0\n\nDgate((q%d - q%d)*q%d + 3*q%d, {phi}) | 3\nRgate(q%d/(q%d + 2) - q%d*q%d, {phi}*2) | %d\nXgate(q0 - 2*q1 + 3*q2 - 4*q3, {phi}) | 2\nBSgate | [0, 1]\nBSgate | [2, 3]\n" % (a, b, c, d, b, a, c, d, a),
+                     "main.xbb": 'name m\nversion 1.0\ninclude "feed.xbb"\n\nMeasureX | 0\nFeed(phi=0.25) | [0, 1, 2, 3]\nFeed(phi=0.5) | [3, 2, 1, 0]\n'}
+            root, real = c07.materialise(files)
+            roots.append(root)
+            cases.append({"files": real, "main": os.path.join(root, "main.xbb"), "root": root})
+            meta.append(("included-template-with-register-transforms", True))
             continue
         if r == 0:
             s, info, _ = gen.gen_template(ctx.rng, {"depth": 2, "max_items": 5})
@@ -117,6 +138,9 @@ def run(ctx):
             ctx.sample(c.get("text") or c["files"])
         if "error" in results[0][k]:
             ctx.count("load-error")
+            if kind in ("included-template-with-register-transforms", "many-registers-in-one-argument"):
+                ctx.violation("hash seed sweep: a case built to load is refused: %s" % results[0][k]["error"],
+                              {"kind": "hashseed", "case": {kk: v for kk, v in c.items() if kk != "root"}, "seeds": seeds})
         msg = compare(results, seeds, k)
         if msg:
             rep = {"kind": "hashseed", "case": {kk: v for kk, v in c.items() if kk != "root"}, "seeds": seeds}
